@@ -326,7 +326,45 @@ class Seq(Node):
         self.items = items
 
     def src(self, fl):
-        return "".join(i.src(fl) for i in self.items)
+        return "".join(("(?:" + i.src(fl) + ")") if isinstance(i, Alt) else i.src(fl) for i in self.items)
+
+
+class Alt(Node):
+    """Disjunction (a choice point: only usable with the SMT-based checks, not the straight-line oracle)."""
+
+    def __init__(self, items):
+        self.items = items
+
+    def src(self, fl):
+        return "|".join(i.src(fl) for i in self.items)
+
+
+class Quant(Node):
+    """General quantifier {min,max} greedy/lazy; max None = unbounded."""
+
+    def __init__(self, body, mn, mx, greedy=True):
+        self.body = body
+        self.mn = mn
+        self.mx = mx
+        self.greedy = greedy
+
+    def src(self, fl):
+        b = self.body.src(fl)
+        if isinstance(self.body, (Seq, Alt)) or (isinstance(self.body, Quant)):
+            b = "(?:" + b + ")"
+        if (self.mn, self.mx) == (0, None):
+            q = "*"
+        elif (self.mn, self.mx) == (1, None):
+            q = "+"
+        elif (self.mn, self.mx) == (0, 1):
+            q = "?"
+        elif self.mx is None:
+            q = "{%d,}" % self.mn
+        elif self.mn == self.mx:
+            q = "{%d}" % self.mn
+        else:
+            q = "{%d,%d}" % (self.mn, self.mx)
+        return b + q + ("" if self.greedy else "?")
 
 
 def number_groups(node, counter=None, names=None):
@@ -340,9 +378,9 @@ def number_groups(node, counter=None, names=None):
             counter[0] += 1
             names.append(node.name or "")
         number_groups(node.body, counter, names)
-    elif isinstance(node, (Look, Rep)):
+    elif isinstance(node, (Look, Rep, Quant)):
         number_groups(node.body, counter, names)
-    elif isinstance(node, Seq):
+    elif isinstance(node, (Seq, Alt)):
         for i in node.items:
             number_groups(i, counter, names)
     return counter[0], names
@@ -354,9 +392,9 @@ def groups_in(node):
         if node.cap:
             out.append(node.idx)
         out += groups_in(node.body)
-    elif isinstance(node, (Look, Rep)):
+    elif isinstance(node, (Look, Rep, Quant)):
         out += groups_in(node.body)
-    elif isinstance(node, Seq):
+    elif isinstance(node, (Seq, Alt)):
         for i in node.items:
             out += groups_in(i)
     return out
@@ -698,9 +736,9 @@ class Case:
             elif isinstance(nd, RawCls):
                 for a, b in nd.ivs[:6]:
                     out.update([a, b, min(b + 1, CP_MAX), max(a - 1, 0)])
-            elif isinstance(nd, (Group, Look, Rep)):
+            elif isinstance(nd, (Group, Look, Rep, Quant)):
                 walk(nd.body)
-            elif isinstance(nd, Seq):
+            elif isinstance(nd, (Seq, Alt)):
                 for i in nd.items:
                     walk(i)
 
